@@ -83,20 +83,22 @@ class LawWorld(World):
         kind = KINDS[int(rng.integers(len(KINDS)))]
         dim = int(rng.integers(2, 4))
         p = {"dim": dim, "planeStress": bool(rng.integers(2)) if dim == 2 else False, "thickness": float(np.round(rng.uniform(0.5, 2), 3))}
+        # moduli either of order 1..1000 or in SI units (Pa): compliances of 1e-11 are as good as those of 1e-2
+        unit = 1.0 if rng.random() < 0.75 else 1e9
         for k, (lo, hi) in SCALARS[kind].items():
-            p[k] = float(np.round(rng.uniform(lo, hi), 4))
+            p[k] = float(np.round(rng.uniform(lo, hi), 4)) * (unit if not k.startswith("v") else 1.0)
         if kind == "TransverselyIsotropic":
             p["axis_l"], p["axis_t"] = _axes(rng, dim)
         elif kind == "Orthotropic":
             p["axis_1"], p["axis_2"] = _axes(rng, dim)
         elif kind == "Anisotropic":
             n = 3 if dim == 2 else 6
-            p["C"] = np.round(_spd(rng, n), 6).tolist()
+            p["C"] = (np.round(_spd(rng, n), 6) * unit).tolist()
             p["voigt"] = bool(rng.integers(2))
             p["axis1"], p["axis2"] = _axes(rng, dim)
             p["planeStress"] = False
         mesh = "quad4_a" if dim == 2 else "hexa8_a"
-        return {"kind": kind, "dim": dim, "params": p, "mesh": mesh, "field_form": ["elem", "gauss"][int(rng.integers(2))], "observers": int(rng.integers(0, 3)), "nops": int(rng.integers(8, 31)), "faults": False}
+        return {"kind": kind, "dim": dim, "params": p, "mesh": mesh, "field_form": ["elem", "gauss"][int(rng.integers(2))], "observers": int(rng.integers(0, 3)), "nops": int(rng.integers(8, 31)), "faults": False, "unit": unit}
 
     def __init__(self, cfg, ctx):
         super().__init__(cfg, ctx)
@@ -135,9 +137,15 @@ class LawWorld(World):
                 op["val"] = float(np.round(rng.uniform(0.5, 2), 3))
             else:
                 lo, hi = SCALARS[self.kind][pn]
+                if not pn.startswith("v"):
+                    lo, hi = lo * self.cfg.get("unit", 1.0), hi * self.cfg.get("unit", 1.0)
                 # all field-valued constants of one law must share their shape (documented)
                 form = "scalar" if rng.random() < 0.7 else self.cfg["field_form"]
-                if form == "scalar":
+                if form == "scalar" and rng.random() < 0.12 and not isinstance(self.p[pn], list):
+                    # a change in the 7th digit (finite differences with respect to a parameter do that)
+                    op["val"] = float(self.p[pn]) * (1.0 + 2e-7) if self.p[pn] != 0 else 1e-9
+                    op["tiny"] = True
+                elif form == "scalar":
                     op["val"] = float(np.round(rng.uniform(lo, hi), 4))
                 else:
                     op["field"] = {"form": form, "aseed": int(rng.integers(1 << 30)), "lo": lo, "hi": hi}
@@ -283,6 +291,8 @@ class LawWorld(World):
             if arr is None or not isinstance(self.p.get(op["name"]), list):
                 return "skip"
             lo, hi = SCALARS[self.kind][op["name"]]
+            if not op["name"].startswith("v"):
+                lo, hi = lo * self.cfg.get("unit", 1.0), hi * self.cfg.get("unit", 1.0)
             new_vals = np.clip(arr * op["factor"], lo, hi) if lo >= 0 else np.clip(arr * op["factor"], lo + 1e-3, hi - 1e-3)
             if np.array_equal(new_vals, arr):
                 new_vals = np.clip(arr / op["factor"], lo, hi) if lo >= 0 else arr * 0.5
@@ -337,7 +347,7 @@ class LawWorld(World):
             if self.kind != "Anisotropic":
                 return "skip"
             n = 3 if self.cfg["dim"] == 2 else 6
-            Cn = np.round(_spd(arr_rng(op["aseed"]), n), 6)
+            Cn = np.round(_spd(arr_rng(op["aseed"]), n), 6) * self.cfg.get("unit", 1.0)
             try:
                 with ctx.sut():
                     for s in self.obs:
